@@ -45,6 +45,13 @@ def handle (st : DState) (kw : String) (toks : List Nat) : DState × String :=
           | .error e => panicLine e
           | .ok .refused => "refused"
           | .ok (.ok f) => "ok " ++ show_ (afileToks (updateFreshness f lock)))
+  | "aggregate" =>
+    match run (list aggSource) toks with
+    | none => (st, "bad-case")
+    | some srcs =>
+      (st, match Agg.aggregate srcs with
+        | none => "none"
+        | some r => "ok " ++ show_ (aggResultToks r))
   | "world" =>
     match run world toks with
     | none => (st, "bad-case")
